@@ -14,7 +14,7 @@ use std::io::{Read as _R2, Write as _W2};
 use std::sync::{Arc, Mutex, atomic::{AtomicUsize, AtomicBool, Ordering}};
 
 #[derive(Clone, Default)]
-struct Script { status: u16, body: String, mode: u8 }   // mode 0 normal, 1 close before headers, 2 close after headers, 3 truncated body, 4 chunked
+struct Script { status: u16, body: String, mode: u8 }   // mode 0 normal, 1 close before headers, 2 close after headers, 3 truncated body, 4 chunked, 5 pieces cut inside characters
 struct Shared { script: Mutex<Script>, log: Mutex<Vec<String>>, accepts: AtomicUsize, stop: AtomicBool }
 
 fn b64(data: &[u8]) -> String {
@@ -80,6 +80,24 @@ fn handle(mut s: std::net::TcpStream, sh: &Shared) {
         }
         let _ = s.write_all(b"0\r\n\r\n");
         let _ = s.flush();
+        return;
+    }
+    if script.mode == 5 {
+        // the same reply, its body sent in pieces that end inside multi-byte characters (a flush and a pause after each piece)
+        let head = format!("HTTP/1.1 {} {}\r\nContent-Type: text/xml; charset=utf-8\r\nContent-Length: {}\r\nConnection: close\r\n\r\n", script.status, reason, b.len());
+        let _ = s.set_nodelay(true);
+        let _ = s.write_all(head.as_bytes());
+        let _ = s.flush();
+        let mut cuts: Vec<usize> = (1..b.len()).filter(|i| b[*i] & 0xC0 == 0x80).collect();
+        cuts.dedup_by(|a, c| *a - *c < 2);
+        cuts.truncate(4);
+        let mut from = 0;
+        for c in cuts.into_iter().chain(std::iter::once(b.len())) {
+            let _ = s.write_all(&b[from..c]);
+            let _ = s.flush();
+            std::thread::sleep(std::time::Duration::from_millis(25));
+            from = c;
+        }
         return;
     }
     let declared = if script.mode == 3 { b.len() + 64 } else { b.len() };
